@@ -16,25 +16,25 @@ SEEDS: dict[str, dict[str, str]] = {
     "C05": {"C05-1": "R-C05.2", "C05-2": "R-C05.4", "C05-3": "R-C05.1"},
     "C06": {"C06-1": "R-C06.2", "C06-2": "R-C06.2", "C06-3": "R-C06.2", "C06-4": "R-C06.6", "C07-2": "R-C06.4"},
     "C07": {"C07-1": "R-C07.4", "C07-2": "R-C07.6", "C07-3": "R-C07.2"},
-    "C08": {"C08-1": "R-C08.1", "C08-2": "R-C08.4", "C08-3": "R-C08.5", "C09-1": "R-C08.1", "C09-2": "R-C08.1", "C09-3": "R-C08.1"},
-    "C09": {"C09-1": "R-C09.5", "C09-2": "R-C09.3", "C09-3": "R-C09.3"},
-    "C10": {"C10-1": "R-C10.1", "C10-2": "R-C10.1"},
+    "C08": {"C08-1": "R-C08.1", "C08-2": "R-C08.4", "C08-3": "R-C08.5", "C09-1": "R-C08.1", "C09-2": "R-C08.1", "C09-3": "R-C08.1", "C10-3": "R-C08.1"},
+    "C09": {"C09-1": "R-C09.5", "C09-2": "R-C09.3", "C09-3": "R-C09.3", "C10-3": "R-C09.2"},
+    "C10": {"C10-1": "R-C10.1", "C10-2": "R-C10.1", "C10-3": "R-C10.1"},
     "C11": {"C11-1": "R-C11.2", "C11-2": "R-C11.5"},
     "C12": {"C12-1": "R-C12.1", "C12-2": "R-C12.5", "C12-3": "R-C12.6"},
     "C13": {"C13-2": "R-C13.2", "C13-3": "R-C13.4", "C13-4": "R-C13.3", "C01-3": "R-C13.1"},
     "C14": {"C14-1": "R-C14.2", "C14-2": "R-C14.5", "C14-3": "R-C14.2", "C14-4": "R-C14.5"},
-    "C15": {"C15-1": "R-C15.2", "C15-2": "R-C15.1", "C16-2": "R-C15.2"},
-    "C16": {"C16-1": "R-C16.4"},
+    "C15": {"C15-1": "R-C15.2", "C15-2": "R-C15.1", "C15-3": "R-C15.1", "C16-2": "R-C15.2"},
+    "C16": {"C16-1": "R-C16.4", "C16-3": "R-C16.4"},
     "C17": {"C17-1": "R-C17.2", "C17-2": "R-C17.1", "C17-3": "R-C17.4"},
-    "C21": {"C21-1": "R-C21.4", "C21-2": "R-C21.5"},
+    "C21": {"C21-1": "R-C21.4", "C21-2": "R-C21.5", "C21-3": "R-C21.3"},
     "C22": {"C22-1": "R-C22.2", "C22-2": "R-C22.3", "C22-3": "R-C22.2", "C22-4": "R-C22.3"},
-    "C23": {"C23-1": "R-C23.1", "C23-2": "R-C23.1"},
-    "C24": {"C24-1": "R-C24.2", "C24-2": "R-C24.6", "C24-3": "R-C24.2"},
+    "C23": {"C23-1": "R-C23.1", "C23-2": "R-C23.1", "C23-3": "R-C23.1"},
+    "C24": {"C24-1": "R-C24.2", "C24-2": "R-C24.6", "C24-3": "R-C24.2", "C24-4": "R-C24.7"},
     "C28": {"C28-2": "R-C28.1", "C28-3": "R-C28.1"},
-    "C29": {"C29-1": "R-C29.3", "C29-2": "R-C29.4"},
+    "C29": {"C29-1": "R-C29.3", "C29-2": "R-C29.4", "C29-3": "R-C29.4"},
     "C30": {"C30-1": "R-C30.3", "C30-2": "R-C30.1"},
     "C32": {"C32-1": "R-C32.3", "C32-2": "R-C32.4", "C32-3": "R-C32.3"},
-    "C33": {"C33-1": "R-C33.3", "C33-2": "R-C33.2"},
+    "C33": {"C33-1": "R-C33.3", "C33-2": "R-C33.2", "C33-3": "R-C33.3"},
 }
 
 MUTANTS: dict[str, list[tuple[str, str, str, str, str | None]]] = {}
